@@ -31,6 +31,8 @@ package encoding
 //@   forall o ref
 //@   ensures[C03] @rawclean imp(istype(o, *fix.Raw), o.(*fix.Raw).value == old(o.(*fix.Raw).value) || noSOH(o.(*fix.Raw).value))
 //@   call unmarshal#1: lemma wf_kv_intro(noKv)
+//@   call Index#2:
+//@     assert[C18] @groupstart anchored(string(data), startNoTag, noTag)
 //@   loop 1:
 //@     invariant[C11] 0 <= i
 //@     invariant[C03] imp(istype(o, *fix.Raw), o.(*fix.Raw).value == old(o.(*fix.Raw).value) || noSOH(o.(*fix.Raw).value))
